@@ -101,6 +101,74 @@ def path_segments(path):
     return out
 
 
+_RANGE_CACHE = {}
+
+
+def bv_range(e, depth=0):
+    """(lo, hi): sound bounds on the unsigned value of a bit-vector term (full range when nothing better is known)"""
+    w = e.size()
+    full = (0, (1 << w) - 1)
+    if z3.is_bv_value(e):
+        v = e.as_long()
+        return (v, v)
+    if depth > 400:
+        return full
+    key = e.get_id()
+    hit = _RANGE_CACHE.get(key)
+    if hit is not None and hit[0].eq(e):
+        return hit[1]
+    k = e.decl().kind()
+    ch = e.children()
+    r = full
+    if k == z3.Z3_OP_CONCAT:
+        lo = hi = 0
+        for c in ch:
+            cl, chh = bv_range(c, depth + 1)
+            lo = (lo << c.size()) + cl
+            hi = (hi << c.size()) + chh
+        r = (lo, hi)
+    elif k == z3.Z3_OP_ZERO_EXT:
+        r = bv_range(ch[0], depth + 1)
+    elif k == z3.Z3_OP_SIGN_EXT:
+        a = bv_range(ch[0], depth + 1)
+        if a[1] < (1 << (ch[0].size() - 1)):
+            r = a
+    elif k == z3.Z3_OP_BADD:
+        lo = hi = 0
+        for c in ch:
+            cl, chh = bv_range(c, depth + 1)
+            lo += cl
+            hi += chh
+        if hi <= full[1]:
+            r = (lo, hi)
+    elif k == z3.Z3_OP_BMUL:
+        lo = hi = 1
+        for c in ch:
+            cl, chh = bv_range(c, depth + 1)
+            lo *= cl
+            hi *= chh
+        if hi <= full[1]:
+            r = (lo, hi)
+    elif k == z3.Z3_OP_EXTRACT:
+        hi_i, lo_i = e.params()
+        a = bv_range(ch[0], depth + 1)
+        if lo_i == 0 and a[1] < (1 << (hi_i + 1)):
+            r = a
+    elif k == z3.Z3_OP_ITE:
+        a, b = bv_range(ch[1], depth + 1), bv_range(ch[2], depth + 1)
+        r = (min(a[0], b[0]), max(a[1], b[1]))
+    elif k == z3.Z3_OP_BAND:
+        r = (0, min(bv_range(c, depth + 1)[1] for c in ch))
+    elif k == z3.Z3_OP_BUREM and len(ch) == 2:
+        b = bv_range(ch[1], depth + 1)
+        if b[0] > 0:
+            r = (0, b[1] - 1)
+    if len(_RANGE_CACHE) > 200000:
+        _RANGE_CACHE.clear()
+    _RANGE_CACHE[key] = (e, r)
+    return r
+
+
 class Interp:
     def __init__(self, mir, src):
         self.mir = mir
@@ -114,6 +182,9 @@ class Interp:
         self.steps = 0
         self.step_limit = 5_000_000
         self.stack = []
+        self.track_depth = False
+        self.max_depth = 0
+        self.max_stack = []
         self.thread = 0
         self.models_used = set()
         self.bodies_used = set()
@@ -508,6 +579,13 @@ class Interp:
         if op == 'BitAnd': return simp(A & B)
         if op == 'BitOr': return simp(A | B)
         if op == 'BitXor': return simp(A ^ B)
+        if op in ('AddWithOverflow', 'MulWithOverflow'):
+            # interval shortcut: operands known to be small non-negative numbers cannot overflow
+            ra, rb = bv_range(A), bv_range(B)
+            top = ra[1] + rb[1] if op[0] == 'A' else ra[1] * rb[1]
+            lim = (1 << (w - 1)) if signed else (1 << w)
+            if ra[1] < lim and rb[1] < lim and top < lim:
+                return Agg(None, (simp(A + B if op[0] == 'A' else A * B), False))
         if op in ('AddWithOverflow', 'SubWithOverflow', 'MulWithOverflow'):
             ext = z3.SignExt if signed else z3.ZeroExt
             k = w if op[0] == 'M' else 1
@@ -715,6 +793,9 @@ class Interp:
         self.bodies_used.add(body.name)
         frame = [body, 0]
         self.stack.append(frame)
+        if self.track_depth and len(self.stack) > self.max_depth:
+            self.max_depth = len(self.stack)
+            self.max_stack = [f[0].name for f in self.stack]
         if len(self.stack) > 3000:
             raise StepBudget('call depth > 3000 in ' + body.name)
         pending = None
